@@ -782,7 +782,7 @@ impl Check for C13 {
     }
     fn assumptions(&self) -> Vec<String> {
         vec![
-            "built without debug assertions and overflow checks (the shipped profile)".into(),
+            "decided on the shipped profile (no debug assertions, no overflow checks); a second build with debug assertions and overflow checks on runs the same plans as a side run (coverage.second_build), where assertions inside the dependency's parser are out of scope".into(),
             "inputs capped at 16 KiB and nesting kept small: exhaustion by pathological depth is out of scope; each call runs on a 512 MiB stack".into(),
             "a call slower than 20 s is reported as inconclusive, never as a violation".into(),
         ]
@@ -893,6 +893,13 @@ pub fn eval_totality(case: &Value) -> Outcome {
         rw::Outcome::Panic(p) => {
             let loc = p.rsplit(" @ ").next().unwrap_or("").to_string();
             let short: String = loc.rsplit('/').next().unwrap_or("").to_string();
+            // second build (debug assertions on): the input text goes to the dependency's parser verbatim, so an
+            // assertion inside the parser is a function of the text alone (malformed inputs trip several of its
+            // debug_assert!s). That build's scope is the rewriter's own code and what it hands to the printer and
+            // the source-map builder: parser-internal assertions are counted, not reported.
+            if std::env::var("VERIF_BUILD_FLAVOUR").is_ok() && loc.contains("/swc_ecma_parser-") {
+                return Outcome::skip("debug assertion inside the dependency's parser (out of scope of the second build)");
+            }
             return Outcome::fail(format!("panic:{short}"), format!("rewrite panicked: {p}"));
         }
     };
